@@ -53,7 +53,7 @@ class G:
                 a[0].deferred = True
             acts += a
             t = t2
-            if t in ('N', 'V', 'PV') or (a[0].wrap and not a[-1].unwrap):
+            if t in ('N', 'V', 'PV', 'PVS') or (a[0].wrap and not a[-1].unwrap):
                 break
         if acts and any(a.wrap for a in acts):
             # a wrapper still open at the end of the chain is closed before the chain is finished off
@@ -61,7 +61,8 @@ class G:
             for a in acts:
                 opened += 1 if a.wrap else (-1 if a.unwrap else 0)
             acts += [gen.Act(None, unwrap=True) for _ in range(max(0, opened))] if t in ('I', 'IP', 'IE', 'IO') else []
-        ann = {'I': None, 'IP': None, 'IE': None, 'IO': None, 'O': 'Option<i64>', 'N': 'i64', 'V': 'Vec<i64>', 'PV': '(Vec<i64>, Vec<i64>)'}[t]
+        ann = {'I': None, 'IP': None, 'IE': None, 'IO': None, 'O': 'Option<i64>', 'N': 'i64', 'V': 'Vec<i64>', 'PV': '(Vec<i64>, Vec<i64>)',
+               'PVS': '(Vec<i64>, std::collections::BTreeSet<i64>)'}[t]
         if ann is None:     # end in something showable
             if t == 'I':
                 acts.append(gen.Act('Collect', ['Vec<i64>']))
@@ -125,7 +126,9 @@ class G:
                 acts.append(A(None, unwrap=True))
             return acts, inner[2]
         if t == 'IP':
-            return rng.choice([([A('Map', ['ipairsum(%d)' % i()])], 'I'), ([A('Unzip', ['_', '_', 'Vec<i64>', 'Vec<i64>'])], 'PV')])
+            return rng.choice([([A('Map', ['ipairsum(%d)' % i()])], 'I'), ([A('Unzip', ['_', '_', 'Vec<i64>', 'Vec<i64>'])], 'PV'),
+                               # FromA and FromB differ: the left column must land in the container written third
+                               ([A('Unzip', ['_', '_', 'Vec<i64>', 'std::collections::BTreeSet<i64>'])], 'PVS')])
         if t == 'IE':
             return [A('Map', ['ienum(%d)' % i()])], 'I'
         if t == 'IO':
